@@ -38,6 +38,8 @@ struct Fixture {
     hang: std::net::TcpListener,
     _fill: Vec<std::net::TcpStream>,
     dead_port: u16,
+    /// bound, never listening: refuses connections and keeps the port from being handed out again
+    _dead: socket2::Socket,
 }
 
 fn fixture() -> std::io::Result<Fixture> {
@@ -56,10 +58,9 @@ fn fixture() -> std::io::Result<Fixture> {
         let _ = s.connect(&haddr.into());
         fill.push(s.into());
     }
-    let d = std::net::TcpListener::bind("127.0.0.1:0")?;
-    let dead_port = d.local_addr()?.port();
-    drop(d);
-    Ok(Fixture { live, hang, _fill: fill, dead_port })
+    let d = super::addrsort::bound_unlistened("127.0.0.1:0".parse().unwrap())?;
+    let dead_port = d.local_addr()?.as_socket().map(|a| a.port()).unwrap_or(0);
+    Ok(Fixture { live, hang, _fill: fill, dead_port, _dead: d })
 }
 
 impl Engine for TcpEyesEngine {
